@@ -4,6 +4,7 @@ import (
 	"context"
 	"errors"
 	"fmt"
+	"sort"
 	"strconv"
 	"strings"
 	"time"
@@ -114,6 +115,7 @@ type tgtConn struct {
 	sentTasks   []*tgtTask  // every task the proxy has put on this stream (OnS2C), received by the target or not
 	ackTracked  []int       // len(tracked) at the emission of each ack, in order
 	rounds      []*ackRound // C05: translations the proxy made for each ack it read on this stream
+	startedAt   int         // decision at which the proxy handler for this stream began to run
 	diedAt      int         // decision at which the stream was first seen dead (0 = alive)
 	endedAt     int         // decision at which the proxy's handler for the stream was seen to have returned
 }
@@ -187,6 +189,9 @@ type RouteWorld struct {
 	acksToSrc  int
 	tailStart  time.Duration
 	tailOK     bool
+	// which stream incarnation made the last registration call of each kind for each shard
+	lastReg   map[string]map[ShardID]string
+	lastRegAt map[ShardID]time.Time
 }
 
 const (
@@ -269,10 +274,7 @@ func NewRouteWorld(s *simrt.Sim, prof RouteProfile) *RouteWorld {
 	loggers := noopLoggers{}
 	w.sm = proxy.NewShardManager(nil, scc, encryption.TLSConfig{}, loggers)
 	_ = w.sm.Start(w.lifetime)
-	var smForServers proxy.ShardManager = w.sm
-	if prof.CheckC05 {
-		smForServers = recSM{ShardManager: w.sm, w: w}
-	}
+	var smForServers proxy.ShardManager = recSM{ShardManager: w.sm, w: w}
 	toA := &adminClient{name: "toA", open: func(ctx context.Context) (adminservice.AdminService_StreamWorkflowReplicationMessagesClient, error) {
 		return w.openSource(clusterA, ctx)
 	}}
@@ -624,11 +626,28 @@ func (w *RouteWorld) tgtOpen(sh *shardModel) {
 	}
 	w.s.Log("target %s opens stream %s", sh.name(), st.Name)
 	w.s.Spawn("handler:"+st.Name, func() {
+		c.startedAt = max(1, w.s.Stats.Decisions)
 		err := srv.StreamWorkflowReplicationMessages(simio.ServerEnd{S: st})
 		st.ServerFinish(err)
 		c.handlerDone = true
 		c.handlerErr = err
 	})
+}
+
+// staleRegisteredLate: the last registration call of the given kind for this shard was made
+// by the goroutines of an OLDER incarnation of its stream than the newest one - the server
+// runs the incarnations' goroutines concurrently and nothing orders their registrations, so
+// a stale stream can register after (and then clean up on top of) its successor.
+func (w *RouteWorld) staleRegisteredLate(sh *shardModel, kind string) string {
+	c := sh.tgt
+	if c == nil {
+		return ""
+	}
+	by := w.lastReg[kind][sh.sid()]
+	if by != "" && by != c.st.Name {
+		return "stale-incarnation-registered-after-successor"
+	}
+	return ""
 }
 
 func (c *tgtConn) usable() bool { return !c.st.Dead() && !c.handlerDone }
@@ -1013,6 +1032,92 @@ func (w *RouteWorld) endChecks() {
 	}
 }
 
+// registryChecks (C08): after the churn has stopped and a fault-free fair tail has run, every
+// shard whose newest stream incarnation is alive must be registered exactly through it: it is
+// a local shard, its delivery channel and (for the stream the proxy opened towards it) its
+// acknowledgement channel are registered, and traffic actually flows through it (the tail's
+// end-to-end acknowledgement reached every source).
+func (w *RouteWorld) registryChecks() {
+	if !w.prof.Cleanup {
+		return
+	}
+	var local map[string]ShardID
+	var ci proxy.ChannelDebugInfo
+	done := false
+	w.s.Spawn("inspect-registries", func() {
+		local = w.sm.GetLocalShards()
+		ci = w.sm.GetChannelInfo()
+		done = true
+	})
+	w.s.ExtendBudget(100000, 30*time.Second)
+	w.s.Run(untilWorld{w, func() bool { return done }})
+	if !done {
+		w.violate("C08", "inspect-stuck", "registry inspection did not complete; live tasks %v", w.s.LiveTasks())
+		return
+	}
+	for _, sh := range w.allShards() {
+		c := sh.tgt
+		if c == nil || !c.usable() || c.st.ClientClosedSend {
+			continue
+		}
+		key := fmt.Sprintf("%d:%d", sh.cluster, sh.id)
+		long := fmt.Sprintf("(id: %d, shard: %d)", sh.cluster, sh.id)
+		if _, ok := local[key]; !ok {
+			w.violateSig("C08", "live-stream-not-registered", w.staleRegisteredLate(sh, "shard"), "shard %s has a live stream (%s, the newest of %d incarnations) but is not among the local shards %v", sh.name(), c.st.Name, len(sh.allTgt), sortedKeysOf(local))
+		}
+		if _, ok := ci.RemoteSendChannels[long]; !ok {
+			w.violateSig("C08", "live-stream-no-delivery-channel", w.staleRegisteredLate(sh, "send"), "shard %s has a live stream (%s) but no delivery channel is registered for it (registered: %v)", sh.name(), c.st.Name, sortedKeysInt(ci.RemoteSendChannels))
+		}
+		if sc := sh.src; sc != nil && sc.alive() {
+			if _, ok := ci.LocalAckChannels[long]; !ok {
+				w.violateSig("C08", "live-stream-no-ack-channel", w.staleRegisteredLate(sh, "ack"), "the proxy holds a live source stream %s for shard %s but no acknowledgement channel is registered for it", sc.st.Name, sh.name())
+			}
+		}
+	}
+	// The end-to-end clause is judged with the shipped queue capacity only: with a 1-4 slot
+	// acknowledgement queue (a knob of the simulator) a source-stream break can leave a target
+	// stream's ack loop blocked for good on the ended receiver's full queue - see DESIGN.md,
+	// "observations outside the claimed clauses".
+	if !w.tailOK && w.cfg.QueueCap >= 100 {
+		sig := ""
+		for _, sh := range w.allShards() {
+			for _, kind := range []string{"shard", "send", "ack"} {
+				if s := w.staleRegisteredLate(sh, kind); s != "" {
+					sig = s
+				}
+			}
+		}
+		w.violateSig("C08", "traffic-does-not-flow", sig, "after the churn stopped, %v of fault-free fair execution did not bring every source an acknowledgement of its final high watermark through the newest incarnations: %s; live tasks: %v", w.s.Now()-w.tailStart, w.tailStatus(), w.s.LiveTasks())
+	}
+}
+
+type untilWorld struct {
+	w    *RouteWorld
+	done func() bool
+}
+
+func (u untilWorld) Actions() []simrt.Action { return u.w.Actions() }
+func (u untilWorld) NextWake() time.Time     { return u.w.NextWake() }
+func (u untilWorld) Done() bool              { return u.done() }
+
+func sortedKeysOf(m map[string]ShardID) []string {
+	var ks []string
+	for k := range m {
+		ks = append(ks, k)
+	}
+	sort.Strings(ks)
+	return ks
+}
+
+func sortedKeysInt(m map[string]int) []string {
+	var ks []string
+	for k := range m {
+		ks = append(ks, k)
+	}
+	sort.Strings(ks)
+	return ks
+}
+
 // cleanupChecks: after every stream has ended nothing may remain registered (C08).
 func (w *RouteWorld) cleanupChecks(live []string) {
 	if !w.prof.Cleanup {
@@ -1042,6 +1147,57 @@ func (w *RouteWorld) cleanupChecks(live []string) {
 type recSM struct {
 	proxy.ShardManager
 	w *RouteWorld
+}
+
+// callerIncarnation names the target stream whose handler the calling task descends from.
+func callerIncarnation() string {
+	for _, n := range simrt.CurrentLineage() {
+		if strings.HasPrefix(n, "handler:") {
+			return strings.TrimPrefix(n, "handler:")
+		}
+	}
+	return ""
+}
+
+func (r recSM) note(kind string, sh ShardID) {
+	if r.w.lastReg == nil {
+		r.w.lastReg = map[string]map[ShardID]string{}
+	}
+	if r.w.lastReg[kind] == nil {
+		r.w.lastReg[kind] = map[ShardID]string{}
+	}
+	r.w.lastReg[kind][sh] = callerIncarnation()
+}
+
+func (r recSM) RegisterShard(sh ShardID) time.Time {
+	t := r.ShardManager.RegisterShard(sh)
+	if r.w.lastRegAt == nil {
+		r.w.lastRegAt = map[ShardID]time.Time{}
+	}
+	// the registration with the latest timestamp is the one that is in effect
+	if last, ok := r.w.lastRegAt[sh]; !ok || t.After(last) {
+		r.w.lastRegAt[sh] = t
+		r.note("shard", sh)
+	} else if t.Equal(last) {
+		r.w.s.Probe("registration-timestamp-tie")
+	}
+	r.w.s.Log("RegisterShard %s by %s at %v", sidStr(sh), callerIncarnation(), t.Sub(time.Unix(946684800, 0)))
+	return t
+}
+
+func (r recSM) UnregisterShard(sh ShardID, at time.Time) {
+	r.w.s.Log("UnregisterShard %s by %s expecting %v", sidStr(sh), callerIncarnation(), at.Sub(time.Unix(946684800, 0)))
+	r.ShardManager.UnregisterShard(sh, at)
+}
+
+func (r recSM) SetRemoteSendChan(sh ShardID, ch chan proxy.RoutedMessage) {
+	r.ShardManager.SetRemoteSendChan(sh, ch)
+	r.note("send", sh) // no scheduling point between the write and the return: return order = write order
+}
+
+func (r recSM) SetLocalAckChan(sh ShardID, ch chan proxy.RoutedAck) {
+	r.ShardManager.SetLocalAckChan(sh, ch)
+	r.note("ack", sh)
 }
 
 func (r recSM) DeliverAckToShardOwner(src ShardID, ra *proxy.RoutedAck, sc channel.ShutdownOnce, lg log.Logger, ack int64, fwd bool) bool {
@@ -1188,6 +1344,7 @@ func RunRoute(s *simrt.Sim, prof RouteProfile) *Result {
 		w.violate("C03", "liveness", "after %v of fault-free fair execution not every source was acked up to its final high watermark: %s", s.Now()-w.tailStart, w.tailStatus())
 	}
 	w.endChecks()
+	w.registryChecks()
 	// phase 2: close everything
 	w.phase = 2
 	s.ExtendBudget(200000, 60*time.Second)
